@@ -468,6 +468,13 @@ def cwStep (_st : Unit) (line : String) (t : Tally) : Except String (Unit × Tal
     else if kv "present" != "true" || g "final" != g "want" then
       .error s!"C09: key {g "key"}: a Compute that was inside its remapping function when the loader returned wrote {g "want"}, yet afterwards the cache holds {g "final"} present={kv "present"} — the loaded value {g "loaded"} was installed over the write"
     else .ok ((), t.bump "lockedwrite_rounds")
+  | "hotget" :: rest =>
+    let g := natOf rest
+    let kv (k : String) := (kvOf rest k).getD ""
+    if g "loads" != 0 then .error s!"C11/C02: key {g "key"} was present and fresh throughout (it is only ever overwritten), yet loader-backed Gets invoked the loader {g "loads"} times (a read of a fresh entry triggers nothing; a present key is never loaded)"
+    else if g "bad" != 0 then .error s!"C02: {g "bad"} loader-backed Gets of key {g "key"} returned a value that was never written (or an error)"
+    else if kv "present" != "true" || g "final" != g "want" then .error s!"C09/C02: the last completed Set of key {g "key"} wrote {g "want"}, the cache holds {g "final"} present={kv "present"} (a load or reload replaced a newer write)"
+    else .ok ((), t.bump "hotget_rounds")
   | "failretry" :: rest =>
     let g := natOf rest
     let kv (k : String) := (kvOf rest k).getD ""
